@@ -892,6 +892,15 @@ async fn table_history(ti: usize, dir: &std::path::Path, rng: &mut Rng, sink: &m
                 }
             }
             t.refresh().await?;
+            // lance drops a vector index from the manifest once none of its fragments is left (Transaction::
+            // retain_relevant_indices: a delete or a compaction removed the last indexed fragment): from then on the
+            // table is searched flat and fast_search has nothing to skip - follow it, or the bookkeeping below would
+            // expect an (empty) index search
+            if t.has_index && t.ds.load_indices_by_name(IDX).await.map_err(es)?.is_empty() {
+                t.has_index = false;
+                t.hist.push("(vector index removed by lance: no indexed fragment left)".into());
+                sink.count("index-vanished");
+            }
         }
         let maxp = if t.has_index { max_partitions(&t).await.unwrap_or(t.nparts) } else { 0 };
         unit_streams(&t, rng, sink, st).await?;
@@ -899,6 +908,27 @@ async fn table_history(ti: usize, dir: &std::path::Path, rng: &mut Rng, sink: &m
             let m = if t.has_index { t.metric } else { *rng.pick(&[MetricType::L2, MetricType::Dot, MetricType::Cosine]) };
             let (qp, arm) = random_qp(rng, &t, m, maxp);
             query(&t, rng, sink, st, qp, arm).await?;
+        }
+        // post-filtered queries (a filter with prefilter = false), asked explicitly on every table state instead of
+        // being left to the 1-in-8 chance of random_qp: the `search` stream accepts for them every tie-break at the
+        // k-th distance (adm_post), so a wrong cut shows only on inputs where few rows tie there - they need volume.
+        // Own generator, so the main stream of cases is the same as without this block.
+        {
+            let mut pr = Rng::new(args.seed ^ ((ti as u64 + 1) << 32) ^ ((step as u64 + 1) << 16) ^ 0x2290_57);
+            for j in 0..args.vol(3, 6) {
+                let flt = if pr.chance(2, 3) { Flt::TagEq(pr.below(3) as i32) } else { Flt::IdGe((t.rows.len() as i32 * pr.range(2, 6) as i32) / 10) };
+                let k = pr.range(2, 14) as usize;
+                let m = if t.has_index { t.metric } else { *pr.pick(&[MetricType::L2, MetricType::Dot]) };
+                let refine = if pr.chance(1, 4) { Some(pr.range(1, 3) as u32) } else { None };
+                let (qp, arm) = if !t.has_index {
+                    (QP { metric: m, k, flt, prefilter: false, refine: None, nprobes: None, fast: false, use_index: true }, "post-flat")
+                } else if j % 3 == 1 && maxp > 1 {
+                    (QP { metric: m, k, flt, prefilter: false, refine, nprobes: Some(pr.range(1, maxp as u64 - 1) as usize), fast: pr.chance(1, 4), use_index: true }, "post-ivf-partial")
+                } else {
+                    (QP { metric: m, k, flt, prefilter: false, refine, nprobes: Some(maxp), fast: pr.chance(1, 5), use_index: true }, "post-ivf-all")
+                };
+                query(&t, &mut pr, sink, st, qp, arm).await?;
+            }
         }
         if t.has_index && step == 1 && ti % 2 == 0 {
             let qp = QP { metric: t.metric, k: 3, flt: Flt::None, prefilter: true, refine: Some(0), nprobes: Some(maxp), fast: false, use_index: true };
@@ -925,7 +955,21 @@ pub fn run(args: &Args) -> i32 {
     let ntables = args.vol(6, 36);
     for ti in 0..ntables {
         let mut r = rng.fork();
-        let res = rt.block_on(table_history(ti, dir.path(), &mut r, &mut sink, &mut st, args));
+        // A table history normally takes 0.5 - 3 s.  An operation of lance that never completes (observed once in the
+        // thorough tier: every thread idle, a future waiting for a wake-up that never comes) is a liveness matter,
+        // not a statement of C22 about the rows returned: the history is abandoned (its cases so far are kept), counted
+        // and reported in the evidence notes instead of blocking the check until the driver's run timeout.
+        let limit = std::time::Duration::from_secs(std::env::var("HX_C22_TABLE_TIMEOUT_S").ok().and_then(|x| x.parse().ok()).unwrap_or(180));
+        let res = rt.block_on(async { tokio::time::timeout(limit, table_history(ti, dir.path(), &mut r, &mut sink, &mut st, args)).await });
+        let res = match res {
+            Ok(r) => r,
+            Err(_) => {
+                sink.count("table-history-timeout");
+                sink.notes.push(format!("table t{ti}: history abandoned after {} s without progress (liveness, outside C22's statement; seed {})", limit.as_secs(), args.seed));
+                eprintln!("NOTE: C22 table t{ti}: history abandoned after {} s (an operation of lance did not complete)", limit.as_secs());
+                Ok(())
+            }
+        };
         if let Err(e) = res {
             // an operation of the history itself failed: the history is part of the quantified domain
             sink.oracle_fail(None, &format!("C22 history: operation failed: {}", e.chars().take(300).collect::<String>()), json!({"table": ti, "seed": args.seed}));
